@@ -200,9 +200,13 @@ class Engine:
                 n = s.visits.get(vk, 0) + 1
                 s.visits[vk] = n
                 if n > self.loop_visits:
-                    s.cut = True
-                    outs.append(Outcome('cut', TOP, s, (fn['path'], bb)))
+                    if self.loop_closed(fn, bb):
+                        outs.append(Outcome('loop-closed', TOP, s, (fn['path'], bb)))
+                    else:
+                        s.cut = True
+                        outs.append(Outcome('cut', TOP, s, (fn['path'], bb)))
                     break
+                self.on_block(fn, fid, bb, s, n)
                 b = fn['blocks'][bb]
                 for sti in b['stmts']:
                     if 'lhs' in sti:
@@ -221,6 +225,7 @@ class Engine:
                     if t['kind'] == 'BoundsCheck' or t['kind'].startswith('Overflow'):
                         s.events.append(('assert', t['kind'], [self.purify(self.operand(x, fn, fid, s), s) for x in t['ops']],
                                          (fn['path'], t['sp']['line'])))
+                    self.on_assert(t, fn, fid, s)
                     if is_c(c):
                         if bool(c[1]) == bool(t['expected']):
                             bb = t['t']
@@ -320,6 +325,15 @@ class Engine:
         return outs
 
     # ------------------------------------------------------------------------------------------------
+    def on_assert(self, t, fn, fid, s):
+        pass
+
+    def on_block(self, fn, fid, bb, s, nvisit):
+        pass
+
+    def loop_closed(self, fn, bb):
+        return False
+
     def _known(self, d, s):
         if is_c(d):
             return d
@@ -362,7 +376,7 @@ class Engine:
     def _step(self, e, fn, fid, s):
         k = e['k']
         if k == 'field':
-            return ('f', e['i'], e['n'], e.get('of', ''))
+            return ('f', e['i'], e['n'], e.get('of', ''), e.get('ty', ''))
         if k == 'downcast':
             return ('d', e['v'], e['n'])
         if k == 'index':
@@ -523,6 +537,10 @@ class Engine:
                 return ('sym', 'const ' + o['named'])
             if o['ty'] == '()':
                 return UNIT
+            if o['ty'] in INT_W and re.fullmatch(r'Ty\(\w+, \w+/#\d+\)', o.get('dbg', '')):
+                cg = s.mem.get((fid, '#cgen'))
+                if cg is not None:
+                    return C(cg)
             return ('term', 'const', [('sym', o.get('dbg', o['ty'])[:80])])
         p = op_place(o)
         if p is None:
@@ -716,6 +734,10 @@ class Engine:
             target = callee
         if target and depth < self.inline_depth and not any(o.search(callee) for o in self.opaque) and \
                 (self.inline_filter is None or self.inline_filter(callee)):
+            nums = [int(g) for g in t.get('gargs', ()) if g.isdigit()]
+            if len(nums) == 1:
+                # the callee's single const generic (e.g. get_bytes::<N>): bound for its frame
+                s.mem[(s.nframes + 1, '#cgen')] = nums[0]
             outs = self.run(self.p.fns[target], args, s, depth + 1)
             conts = []
             for o in outs:
@@ -749,16 +771,17 @@ class Engine:
         one = lambda v: [(v, s)]
         lf = self.p.fns.get(c)
         local_manual = lf is not None and not lf.get('derived') and not lf['span']['exp']
+        aty = lambda i: (t.get('atys') or ['', ''])[i] if i < len(t.get('atys') or []) else ''
         if tc in ('core::cmp::PartialEq::eq', 'core::cmp::PartialEq::ne'):
             if local_manual:
                 return None
-            return one(self.binop('Ne' if tc.endswith('::ne') else 'Eq', self.strip(dv(0), s), self.strip(dv(1), s)))
+            return one(self.binop('Ne' if tc.endswith('::ne') else 'Eq', self.strip_typed(dv(0), aty(0), s), self.strip_typed(dv(1), aty(1), s)))
         m = re.match(r'core::cmp::PartialOrd::(lt|le|gt|ge)$', tc)
         if m:
             if local_manual:
                 return None
             return one(self.binop({'lt': 'Lt', 'le': 'Le', 'gt': 'Gt', 'ge': 'Ge'}[m.group(1)],
-                                  self.strip(dv(0), s), self.strip(dv(1), s)))
+                                  self.strip_typed(dv(0), aty(0), s), self.strip_typed(dv(1), aty(1), s)))
         if tc in ('core::cmp::Ord::max', 'core::cmp::Ord::min', 'core::cmp::max', 'core::cmp::min'):
             a, b = self.strip(dv(0), s), self.strip(dv(1), s)
             nm = 'Max' if tc.endswith('max') else 'Min'
@@ -876,6 +899,9 @@ class Engine:
         if c.startswith('core::fmt::') or c.startswith('<core::fmt::') or c.startswith('alloc::fmt::format'):
             return one(('term', 'fmt', []))
         return None
+
+    def strip_typed(self, v, ty, s):
+        return self.strip(v, s)
 
     def default_of(self, ty):
         if ty in INT_W:
